@@ -35,3 +35,12 @@ def bootstrap():
         pass
     torch.set_default_dtype(torch.float64)
     return torch
+
+
+def warm():
+    """Pay torch's lazy initialisation (about 1 s) once in the parent before forking workers.
+    Not used by checks where a pristine process is part of the property (C15)."""
+    from .drivers import molecules as M
+    from .drivers import sp
+
+    sp.single_point(M.get("HF"), sp.make_params("AM1", eps=1e-6), names=["Etot"])
